@@ -1,0 +1,32 @@
+//! Verification hooks. Compiled only with `--cfg tarpc_verif`; never part of a normal build.
+
+use std::cell::RefCell;
+
+thread_local! {
+    static YIELD_CB: RefCell<Option<Box<dyn FnMut(&'static str, u64)>>> = const { RefCell::new(None) };
+}
+
+/// Installs (or clears) the callback invoked at each yield point on this thread.
+pub fn set_yield_callback(cb: Option<Box<dyn FnMut(&'static str, u64)>>) {
+    YIELD_CB.with(|c| *c.borrow_mut() = cb);
+}
+
+/// A point at which a verification harness may run other tasks. The callback is taken out of its
+/// slot while it runs, so nested yield points reached from inside it are no-ops.
+pub fn yield_point(name: &'static str, id: u64) {
+    let cb = YIELD_CB.with(|c| c.borrow_mut().take());
+    if let Some(mut cb) = cb {
+        cb(name, id);
+        YIELD_CB.with(|c| {
+            let mut slot = c.borrow_mut();
+            if slot.is_none() {
+                *slot = Some(cb);
+            }
+        });
+    }
+}
+
+/// The clock tarpc reads under verification: tokio's (pausable) clock.
+pub fn now() -> std::time::Instant {
+    tokio::time::Instant::now().into_std()
+}
